@@ -100,6 +100,8 @@ class Reducer:
         self.truth = f.params[0]['name']
         self.pred = f.params[1]['name'] if len(f.params) > 1 else None
         self.guard_notes = []
+        self.colvar = None       # column mode: name of the outer (column) loop variable
+        self.results = []        # column mode: values appended to the output vector
 
     def where(self, n):
         return self.f.unit.where(n)
@@ -124,6 +126,17 @@ class Reducer:
             if isinstance(a, Wrap) or isinstance(b, Wrap):
                 raise Unsupported('arithmetic on a fabs/sqrt value')
             return {'+': a.__add__, '-': a.__sub__, '*': a.__mul__, '/': a.__truediv__}[n['opcode']](b)
+        if k == 'ArraySubscriptExpr' and self.colvar is not None:
+            b = strip(kids(n)[0])
+            if b.get('kind') == 'ArraySubscriptExpr':
+                bb = strip(kids(b)[0])
+                if bb.get('kind') == 'MemberExpr' and bb.get('name') == 'data':
+                    base = strip(kids(bb)[0])
+                    if (base.get('kind') == 'DeclRefExpr' and base['referencedDecl'].get('name') == self.truth and loopvar is not None and
+                            exprs.to_poly(kids(b)[1], byname=True) == Poly.atom(loopvar) and
+                            exprs.to_poly(kids(n)[1], byname=True) == Poly.atom(self.colvar)):
+                        return Rat(Poly.atom('t'))
+            raise Unsupported('element reference %s' % self.f.unit.text(n))
         if k == 'ArraySubscriptExpr':
             b = strip(kids(n)[0])
             if b.get('kind') == 'MemberExpr' and b.get('name') == 'data':
@@ -183,6 +196,57 @@ class Reducer:
             raise Unsupported('no return value')
         return ret[0]
 
+    def run_columns(self):
+        """f(matrix *m, dvector *out): one outer loop over the columns, each iteration appends one closed form to out"""
+        outer = [s for s in kids(self.f.body) if strip(s).get('kind') == 'ForStmt']
+        if len(outer) != 1:
+            raise Unsupported('expected one loop over the columns')
+        n = strip(outer[0])
+        ind = flow.induction(n)
+        if ind is None or ind['step'].const_value() != 1 or ind['op'] != '<':
+            raise Unsupported('column loop is not a unit-step counting loop')
+        init, cond, inc, body = flow.for_parts(n)
+        c = strip(cond)
+        l, r = kids(c)
+        bn = r if exprs.path_of(l) == ind['var'] else l
+        full = ind['init'] == Poly.const(0) and exprs.to_poly(bn, byname=True) == Poly.atom('%s->col' % self.truth)
+        self.guard_notes.append(('range', n, full, 'columns [%s, %s)' % (ind['init'], exprs.to_poly(bn, byname=True))))
+        self.colvar = ind['var'].split('#')[0]
+        env = {}
+        ret = [None]
+        for s in (kids(body) if body.get('kind') == 'CompoundStmt' else [body]):
+            s0 = strip(s)
+            if s0.get('kind') == 'CallExpr' and callee_name(s0) in ('DVectorAppend',):
+                a = call_args(s0)
+                if strip(a[0]).get('kind') == 'DeclRefExpr' and strip(a[0])['referencedDecl'].get('name') == self.pred:
+                    self.results.append((s0, self.ev(a[1], env)))
+                    continue
+            if s0.get('kind') == 'IfStmt':
+                self.snap_if(s0, env)
+                continue
+            self.stmt(s, env, ret)
+        if len(self.results) != 1:
+            raise Unsupported('%d values appended to the output vector per column' % len(self.results))
+        return self.results[0][1]
+
+    def snap_if(self, n, env):
+        """if(ApproxEq(v, 0, eps)) v = 0; else v /= n;   -- snapping a value that is (approximately) zero to exactly zero does not change
+        the closed form beyond eps: treated as the else arm"""
+        c, t, e = flow.if_parts(n)
+        m = guards.match_approx(c)
+        if m and e is not None and guards.literal_value(m[1]) == 0.0 and strip(m[0]).get('kind') == 'DeclRefExpr':
+            v = strip(m[0])['referencedDecl'].get('name')
+            ts = [strip(x) for x in (kids(t) if t.get('kind') == 'CompoundStmt' else [t])]
+            if len(ts) == 1 and ts[0].get('kind') == 'BinaryOperator' and ts[0].get('opcode') == '=' and \
+                    strip(kids(ts[0])[0]).get('kind') == 'DeclRefExpr' and strip(kids(ts[0])[0])['referencedDecl'].get('name') == v and \
+                    guards.literal_value(kids(ts[0])[1]) == 0.0:
+                ret = [None]
+                for x in (kids(e) if e.get('kind') == 'CompoundStmt' else [e]):
+                    self.stmt(x, env, ret)
+                self.guard_notes.append(('snap', n, v))
+                return
+        raise Unsupported('conditional at %s' % self.where(n))
+
     def stmt(self, s, env, ret):
         s0 = strip(s)
         k = s0.get('kind')
@@ -234,7 +298,7 @@ class Reducer:
         l, r = kids(c)
         bn = r if exprs.path_of(l) == ind['var'] else l
         bound = exprs.to_poly(bn, byname=True)
-        full = ind['init'] == Poly.const(0) and bound == Poly.atom('%s->size' % self.truth)
+        full = ind['init'] == Poly.const(0) and bound == Poly.atom('%s->%s' % (self.truth, 'row' if self.colvar is not None else 'size'))
         self.guard_notes.append(('range', n, full, '[%s, %s)' % (ind['init'], bound)))
         pm = flow.parent_map(n)
         updates = {}
@@ -252,7 +316,9 @@ class Reducer:
                 if t.get('kind') == 'DeclRefExpr' and t['referencedDecl'].get('name') != var:
                     tgt = t['referencedDecl'].get('name')
                     term = ('one', None, '+=')
-            elif kx in ('BinaryOperator',) and x.get('opcode') == '=':
+            elif kx in ('BinaryOperator',) and x.get('opcode') == '=' and not (
+                    strip(kids(x)[0]).get('kind') == 'DeclRefExpr' and strip(kids(x)[0])['referencedDecl'].get('name') in
+                    {v_.get('name') for v_ in walk(body) if v_.get('kind') == 'VarDecl'}):
                 t = strip(kids(x)[0])
                 if t.get('kind') == 'DeclRefExpr':
                     raise Unsupported('plain assignment to %s inside a reduction loop at %s (a running recurrence, not a sum)' %
@@ -272,9 +338,16 @@ class Reducer:
             self.guard_notes.append(('acc', x, frozenset(gkey), tgt))
             updates.setdefault(tgt, []).append((x, term))
         assigned = set(updates)
+        # per-element temporaries: float locals declared with an initialiser inside the loop body
+        temps = {}
+        for x in walk(body):
+            if x.get('kind') == 'VarDecl' and kids(x) and fe.is_float_type(x):
+                temps[x['name']] = kids(x)[-1]
         for tgt, ups in updates.items():
             for x, (kind, node, op) in ups:
                 inv_env = {k2: v for k2, v in env.items() if k2 not in assigned}
+                for tn, tnode in temps.items():
+                    inv_env[tn] = self.ev(tnode, inv_env, var)
                 if kind == 'one':
                     term = Rat(Poly.const(1))
                 else:
@@ -288,6 +361,14 @@ class Reducer:
 
     def elem_role(self, x, var):
         x = strip(x)
+        if self.colvar is not None:
+            try:
+                r = self.ev(x, {}, var)
+                if isinstance(r, Rat) and r.same(Rat(Poly.atom('t'))):
+                    return 'truth'
+            except Unsupported:
+                pass
+            return self.f.unit.text(x)
         if x.get('kind') == 'ArraySubscriptExpr':
             b = strip(kids(x)[0])
             if b.get('kind') == 'MemberExpr' and b.get('name') == 'data':
@@ -357,3 +438,63 @@ def run(chk, prog):
                     chk.violation(Finding('RF.guard', rel(f.file), name, 'guard:%s' % tgt, red.f.unit.where(node),
                                           '%s: the accumulation into %s is guarded by %s; the definition sums over the elements whose TRUTH is not the '
                                           'missing code (and only those)' % (name, tgt, sorted(gkey, key=repr) or 'nothing')))
+
+
+def _col_defs():
+    t = Rat(Poly.atom('t'))
+    N = sum_over(Rat(Poly.const(1)))
+    mean = sum_over(t) / N
+    one = Rat(Poly.const(1))
+    var = sum_over((t - mean) * (t - mean)) / (N - one)
+    return {
+        'MatrixColAverage': (mean, 'sum x / n'),
+        'MatrixColVar': (var, 'sum (x - mean)^2 / (n - 1)'),
+        'MatrixColSDEV': (Wrap('sqrt', var), 'sqrt(sum (x - mean)^2 / (n - 1))'),
+        'MatrixColRMS': (Wrap('sqrt', sum_over(t * t) / N), 'sqrt(sum x^2 / n)'),
+    }
+
+
+def run_columns(chk, prog):
+    R1 = chk.rule('RF.column-statistic', 'for every column the value appended to the output vector is the defining statistic of the non-missing '
+                  'cells of that column (closed form over column sums, exact arithmetic)')
+    R2 = chk.rule('RF.column-guard', 'every accumulation is under "this cell is not MISSING", rows and columns are covered completely')
+    miss = float(guards.missing_value())
+    for name, (want, text) in _col_defs().items():
+        f = prog.funcs.get(name)
+        if f is None or f.body is None:
+            chk.broke('%s not found' % name)
+            continue
+        red = Reducer(prog, f)
+        try:
+            got = red.run_columns()
+        except Unsupported as e:
+            chk.broke('%s: not a per-column reduction: %s' % (name, e))
+            continue
+        if same(got, want):
+            chk.instance(R1, '%s %s appends %s per column' % (f.where, name, text))
+        else:
+            chk.instance(R1, '%s %s: closed form %s' % (f.where, name, str(got)[:160]), 'refuted')
+            chk.violation(Finding('RF.column-statistic', rel(f.file), name, 'formula', f.where,
+                                  '%s appends %s per column, which is not its definition %s = %s (N: number of non-missing cells of the column, '
+                                  'S[..]: sums over them)' % (name, str(got)[:300], text, str(want)[:200])))
+        for note in red.guard_notes:
+            if note[0] == 'range':
+                _, node, full, rng = note
+                if full:
+                    chk.instance(R2, '%s %s: loop over %s' % (f.unit.where(node), name, rng))
+                else:
+                    chk.instance(R2, '%s %s: loop over %s' % (f.unit.where(node), name, rng), 'refuted')
+                    chk.violation(Finding('RF.column-guard', rel(f.file), name, 'range:%s' % rng, f.unit.where(node),
+                                          '%s runs over %s instead of every row / column of the matrix' % (name, rng)))
+            elif note[0] == 'snap':
+                chk.instance(R2, '%s %s: `%s` snapped to exactly 0 when it is within the tolerance of 0 (treated as the else arm)' %
+                             (f.unit.where(note[1]), name, note[2]))
+            else:
+                _, node, gkey, tgt = note
+                if gkey == frozenset({('truth', miss, False)}):
+                    chk.instance(R2, '%s %s: `%s` accumulates under "cell not MISSING"' % (f.unit.where(node), name, tgt))
+                else:
+                    chk.instance(R2, '%s %s: `%s` accumulates under %s' % (f.unit.where(node), name, tgt, sorted(gkey, key=repr)), 'refuted')
+                    chk.violation(Finding('RF.column-guard', rel(f.file), name, 'guard:%s' % tgt, f.unit.where(node),
+                                          '%s: the accumulation into %s is guarded by %s; the statistic is taken over the cells of the column that do '
+                                          'not carry the missing code (and only those)' % (name, tgt, sorted(gkey, key=repr) or 'nothing')))
